@@ -45,7 +45,30 @@ def inp_patches(k=0):
     return torch.rand(3, 4, 4, 4, generator=g)
 
 
-INPUTS = {"tensor": inp_tensor, "pil": inp_pil, "spec": inp_spec, "pair": inp_pair, "patches": inp_patches}
+def inp_spec_big(k=0):
+    g = torch.Generator().manual_seed(2500 + k)
+    return torch.rand(1, 1056, 1000, generator=g)
+
+
+def inp_pair_big(k=0):
+    g = torch.Generator().manual_seed(3500 + k)
+    return inp_tensor(k, 600, 592), torch.randint(0, 5, (600, 592), generator=g)
+
+
+INPUTS = {"tensor": inp_tensor, "pil": inp_pil, "spec": inp_spec, "pair": inp_pair, "patches": inp_patches,
+          # the property quantifies over all input sizes / modes: variants of the base kinds (more than 2**20 elements, other float type)
+          "tensor-big": lambda k=0: inp_tensor(k, 592, 592), "pil-big": lambda k=0: inp_pil(k, 592, 592),
+          "spec-big": inp_spec_big, "pair-big": inp_pair_big,
+          "tensor-f64": lambda k=0: inp_tensor(k).double(), "tensor-odd": lambda k=0: inp_tensor(k, 17, 33)}
+VARIANTS = {"tensor": ["tensor-big", "tensor-f64", "tensor-odd"], "pil": ["pil-big"], "spec": ["spec-big"], "pair": ["pair-big"]}
+BASE_KINDS = ("tensor", "pil", "spec", "pair", "patches")
+# call histories (all judged by the same statement: equal injected seeds + equal inputs + equal public configuration => equal outputs)
+#   plain    : a has two calls before the injection, b none; replay on a; a pickled/deep copy of the used a
+#   strength : scale_strength(0) on both BEFORE the injection, the strength is raised / varied (equally on both) between the seeded calls
+#   worker   : worker_init_fn (scheduled transforms start to follow their schedule) on both, equal number of earlier calls,
+#              a with earlier injected seeds and b without; the seed is injected once or per sample
+HISTS = ("plain", "strength", "worker")
+POST_STRENGTH = (1.0, 1.0, 0.5, 0.0, 1.0, 0.3)
 
 
 # ----------------------------------------------------------------------------------------------
@@ -122,6 +145,8 @@ def recipes():
     add("KDScheduledTransform", "jit", lambda: T.KDScheduledTransform(transform=T.KDColorJitter(0.4, 0.4, 0.2, 0.1)), "tensor")
     add("KDScheduledTransform", "comp", lambda: T.KDScheduledTransform(
         transform=[T.KDRandomCrop(size=8, padding=2), T.KDRandomGaussianBlurTV(kernel_size=3, sigma=(0.1, 2.0), p=0.5)]), "tensor")
+    add("KDScheduledTransform", "gray", lambda: T.KDScheduledTransform(
+        transform=[T.KDRandomGrayscale(p=0.6), T.KDRandomSolarize(threshold=0.5, p=0.5), T.KDRandomCrop(size=8, padding=2)]), "tensor")
     # ready-made pipelines
     add("BYOLTransform", "p", lambda: CT.BYOLTransform(size=16, norm=None), "pil")
     add("BYOLTransform0", "p", lambda: CT.BYOLTransform0(size=16), "pil")
@@ -151,6 +176,8 @@ def random_composition(rng, depth=3):
         ("crop16", lambda: T.KDRandomCrop(size=16, padding=2)),
         ("blur", lambda: T.KDRandomGaussianBlurTV(kernel_size=3, sigma=(0.1, 2.0), p=0.6)),
         ("erase", lambda: T.KDRandomErasing(p=0.8, mode="pixelwise", max_count=3)),
+        ("grayscale", lambda: T.KDRandomGrayscale(p=0.5)),
+        ("solarize", lambda: T.KDRandomSolarize(threshold=0.5, p=0.5)),
     ]
 
     def go(d):
@@ -177,11 +204,11 @@ def random_composition(rng, depth=3):
     return go(depth)
 
 
-def composition_oracle(rng_seed, depth, seed):
+def composition_oracle(rng_seed, depth, seed, hist="plain", kind="tensor"):
     """behavioural oracle on one random composition (rebuilt identically from rng_seed for both instances)"""
     name = random_composition(pyrandom.Random(rng_seed), depth)[0]
     return behav_oracle(f"composition:{name}", f"rs={rng_seed},d={depth}", lambda: random_composition(pyrandom.Random(rng_seed), depth)[1],
-                        "tensor", seed)
+                        kind, seed, ncalls=4 if hist == "plain" else 6, hist=hist)
 
 
 def collator_recipes():
@@ -300,58 +327,114 @@ def scramble(k):
     pyrandom.seed(9200 + k)
 
 
-def run_seq(t, kind, seed, n, scr):
-    """inject seed, run n calls under scrambled global state; returns (outputs, global_consumed?)"""
+def run_seq(t, kind, seed, n, scr, strengths=None, reseed_each=False, exc_outcome=False):
+    """inject seed, run n calls under scrambled global state; returns (outputs, global_consumed?)
+    strengths: public strength factor set before call k (same list for every instance compared); reseed_each: per-sample seeding
+    (seed + k injected before call k); exc_outcome: an exception of a call is that call's outcome (compared), not an error"""
     t.set_rng(np.random.default_rng(seed))
     outs = []
     consumed = False
     for k in range(n):
         scramble(scr * 100 + k)
-        before = global_state()
-        ctx = {}
         x = INPUTS[kind](k)
-        y = t(x, ctx=ctx)
+        before = global_state()
+        try:
+            if reseed_each and k > 0:
+                t.set_rng(np.random.default_rng(seed + k))
+            if strengths is not None:
+                t.scale_strength(strengths[k % len(strengths)])
+            ctx = {}
+            y = t(x, ctx=ctx)
+            out = (canon(y), canon(ctx))
+        except Exception as e:
+            if not exc_outcome:
+                raise
+            out = ("EXC", type(e).__name__)
         after = global_state()
         if before != after:
             consumed = True
-        outs.append((canon(y), canon(ctx)))
+        outs.append(out)
     return outs, consumed
 
 
 UNUSABLE = {}
+SKIPPED = {}
 
 
-def behav_oracle(name, label, thunk, kind, seed, ncalls=4):
+def _clone(obj):
+    """a copy of a used object as a data-loader worker / checkpoint would get it (pickle; deepcopy when not picklable); None if neither"""
+    import pickle
+    try:
+        return pickle.loads(pickle.dumps(obj))
+    except Exception:
+        try:
+            return copy.deepcopy(obj)
+        except Exception:
+            return None
+
+
+def behav_oracle(name, label, thunk, kind, seed, ncalls=4, hist="plain"):
     """returns Failure or None"""
     key_in = {"class": name, "recipe": label, "input": kind, "seed": seed}
+    if hist != "plain":
+        key_in["hist"] = hist
+    base = hist == "plain" and kind in BASE_KINDS
+    lenient = not base                 # new sizes / dtypes / configurations: an exception is an outcome to be compared
+    strengths = POST_STRENGTH if hist == "strength" else None
+    reseed_each = hist == "worker" and seed % 2 == 0
     try:
         scramble(1)
         a = thunk()
         scramble(2)
         b = thunk()
+        if hist == "worker":
+            # what a data-loader worker does at start-up (re-seeds from the global state, scheduled transforms get their progress info)
+            scramble(6)
+            a.worker_init_fn(0, batch_size=2, updates=4)
+            scramble(7)
+            b.worker_init_fn(0, batch_size=2, updates=4)
+        if hist == "strength":
+            a.scale_strength(0.)
+            b.scale_strength(0.)
         # some call history on `a` before the seed is injected (also tells a broken recipe from a seed problem)
         for k in range(2):
+            if hist == "worker":
+                # stateful (scheduled) members count calls: equal number of earlier calls on both, but different earlier seeds
+                a.set_rng(np.random.default_rng(5000 + 1000 * k + seed))
+                b(INPUTS[kind](50 + k), ctx={})
             a(INPUTS[kind](50 + k), ctx={})
     except Exception as e:
-        UNUSABLE[(name, label)] = f"{type(e).__name__}: {e}"
+        (UNUSABLE if base else SKIPPED)[(name, label) if base else (name, label, kind, hist)] = f"{type(e).__name__}: {e}"
         return None
     try:
-        oa, ca = run_seq(a, kind, seed, ncalls, 3)
-        ob, cb = run_seq(b, kind, seed, ncalls, 4)
-        oa2, _ = run_seq(a, kind, seed, ncalls, 5)
+        oa, ca = run_seq(a, kind, seed, ncalls, 3, strengths, reseed_each, lenient)
+        ob, cb = run_seq(b, kind, seed, ncalls, 4, strengths, reseed_each, lenient)
+        oa2 = oc = None
+        if hist != "worker":
+            if hist == "strength":
+                a.scale_strength(0.)
+            oa2, _ = run_seq(a, kind, seed, ncalls, 5, strengths, reseed_each, lenient)
+        if base:
+            c = _clone(a)
+            if c is not None:
+                oc, _ = run_seq(c, kind, seed, ncalls, 8, strengths, reseed_each, lenient)
     except Exception as e:
         return Failure(f"seed:{name}:exception", f"{name}[{label}] raises {type(e).__name__}: {e} when a seed is injected / used", key_in,
                        "no exception", f"{type(e).__name__}: {e}")
+    hs = "" if hist == "plain" else f" (history {hist}, input {kind})"
     if oa != ob:
         i = next(i for i in range(len(oa)) if oa[i] != ob[i])
-        return Failure(f"seed:{name}:instances-differ", f"{name}[{label}]: two instances with equal injected seed {seed} differ at call {i} "
+        return Failure(f"seed:{name}:instances-differ", f"{name}[{label}]: two instances with equal injected seed {seed} differ at call {i}{hs} "
                        "(some member still draws from its construction-time / global generator)", key_in, "equal outputs and ctx", f"call {i} differs")
-    if oa != oa2:
-        return Failure(f"seed:{name}:no-replay", f"{name}[{label}]: re-injecting seed {seed} does not replay the sequence", key_in,
+    if oa2 is not None and oa != oa2:
+        return Failure(f"seed:{name}:no-replay", f"{name}[{label}]: re-injecting seed {seed} does not replay the sequence{hs}", key_in,
                        "same sequence", "differs")
+    if oc is not None and oa != oc:
+        return Failure(f"seed:{name}:copy-differs", f"{name}[{label}]: a pickled / deep copy of the used instance given seed {seed} "
+                       "does not produce the sequence of the original", key_in, "same sequence", "differs")
     if ca or cb:
-        return Failure(f"seed:{name}:global-consumed", f"{name}[{label}]: the process-global NumPy/Torch/Python RNG state is consumed by a call", key_in,
-                       "global state untouched", "global state changed")
+        return Failure(f"seed:{name}:global-consumed", f"{name}[{label}]: the process-global NumPy/Torch/Python RNG state is consumed by a call{hs}",
+                       key_in, "global state untouched", "global state changed")
     return None
 
 
@@ -467,15 +550,38 @@ class C07(RngFlowCheck):
                     f = behav_oracle(name, label, thunk, kind, sd)
                     if f is not None and not any(g.key == f.key for g in res.failures):
                         res.failures.append(f)
+        # histories with public configuration changes around the injection, and other input sizes / types (one seed each)
+        seen_big = set()
+        for name, lst in sorted(R.items()):
+            for label, thunk, kind in lst:
+                todo = [(kind, "strength", seeds[0], 6), (kind, "worker", seeds[1], 4)]
+                for vk in VARIANTS.get(kind, []):
+                    # the large inputs are slow: once per class in the quick tier (first recipe of that input kind), every recipe otherwise
+                    if vk.endswith("-big") and self.tier == "quick":
+                        if (name, vk) in seen_big:
+                            continue
+                        seen_big.add((name, vk))
+                    todo.append((vk, "plain", seeds[0], 2))
+                for vk, hist, sd, nc in todo:
+                    res.cases += 1
+                    res.bump(f"behavioural-{hist}")
+                    res.bump(f"input={vk}")
+                    f = behav_oracle(name, label, thunk, vk, sd, ncalls=nc, hist=hist)
+                    if f is not None and not any(g.key == f.key for g in res.failures):
+                        res.failures.append(f)
         # random nestings of the composites (compose / random-apply / patchwise / scheduled / choice) over stochastic leaves
-        ncomp = 25 if self.tier == "quick" else 300
+        ncomp = 36 if self.tier == "quick" else 400
         for k in range(ncomp):
             rs = self.rng.randrange(10 ** 9)
+            hist = HISTS[(k // 4) % 3]
+            ckind = "tensor-big" if k % 6 == 5 else "tensor"
             res.cases += 1
             res.bump("behavioural-composition")
-            f = composition_oracle(rs, 1 + k % 4, seeds[0])
+            res.bump(f"composition-{hist}")
+            res.bump(f"composition-input={ckind}")
+            f = composition_oracle(rs, 1 + k % 4, seeds[0], hist, ckind)
             if f is not None:
-                f.input = {"composition_rng_seed": rs, "depth": 1 + k % 4, "seed": seeds[0], "what": f.input}
+                f.input = {"composition_rng_seed": rs, "depth": 1 + k % 4, "seed": seeds[0], "hist": hist, "input": ckind, "what": f.input}
                 if not any(g.key == f.key for g in res.failures):
                     res.failures.append(f)
         res.histogram["behavioural_s"] = round(time.time() - t0, 1)
@@ -483,6 +589,9 @@ class C07(RngFlowCheck):
         res.observations.append({"table_classes_with_cells_or_slots_but_no_recipe": uncovered})
         res.observations.append({"recipes_unusable_in_this_environment (not judged)": {f"{k[0]}[{k[1]}]": v for k, v in UNUSABLE.items()}})
         res.histogram["recipes_unusable"] = len(UNUSABLE)
+        res.observations.append({"(recipe, input variant, history) combinations the code does not support (not judged)":
+                                 {"/".join(k): v[:120] for k, v in sorted(SKIPPED.items())}})
+        res.histogram["variant_cases_skipped"] = len(SKIPPED)
         for a, b in self.gen_errors:
             res.observations.append(f"translator: {a}: {b}")
         return res
@@ -499,6 +608,8 @@ class C07(RngFlowCheck):
                     if time.time() - t0 > budget_s:
                         return out
                     f = behav_oracle(name, label, thunk, kind, sd, ncalls=6)
+                    for hist in ("strength", "worker"):
+                        f = f or behav_oracle(name, label, thunk, kind, sd, ncalls=6 if hist == "strength" else 4, hist=hist)
                     if f:
                         out.append(f)
                         break
@@ -507,10 +618,11 @@ class C07(RngFlowCheck):
             k = 0
             while time.time() - t0 < budget_s * 0.6 and not out:
                 rs = rng.randrange(10 ** 9)
-                f = composition_oracle(rs, 1 + k % 4, 5)
+                hist = HISTS[(k // 4) % 3]
+                f = composition_oracle(rs, 1 + k % 4, 5, hist)
                 k += 1
                 if f:
-                    f.input = {"composition_rng_seed": rs, "depth": 1 + (k - 1) % 4, "seed": 5, "what": f.input}
+                    f.input = {"composition_rng_seed": rs, "depth": 1 + (k - 1) % 4, "seed": 5, "hist": hist, "input": "tensor", "what": f.input}
                     out.append(f)
         if not out:
             for name, lst in sorted(R.items()):
@@ -524,11 +636,15 @@ class C07(RngFlowCheck):
 
     def replay_input(self, inp):
         if "composition_rng_seed" in inp:
-            return composition_oracle(inp["composition_rng_seed"], inp["depth"], inp["seed"])
+            return composition_oracle(inp["composition_rng_seed"], inp["depth"], inp["seed"], inp.get("hist", "plain"), inp.get("input", "tensor"))
         R = recipes()
         for label, thunk, kind in R.get(inp["class"], []):
             if label == inp.get("recipe"):
-                return behav_oracle(inp["class"], label, thunk, kind, inp.get("seed", 1), ncalls=6)
+                hist = inp.get("hist", "plain")
+                vk = inp.get("input", kind)
+                if vk != kind and vk not in VARIANTS.get(kind, []):
+                    continue
+                return behav_oracle(inp["class"], label, thunk, vk, inp.get("seed", 1), ncalls=4 if hist == "worker" else 6, hist=hist)
         return None
 
 
